@@ -4,8 +4,10 @@ EXTENDS O2OGenerics, Json, IOUtils
 Rec == ndJsonDeserialize(IOEnv.TRACE)
 VARIABLE l
 ToSetS(s) == {s[i] : i \in DOMAIN s}
+\* bounds are compared as sets (a repeated bound such as 'o2o: 'x + 'x is harmless); parameters as a sequence of distinct names
+NormP(s) == {[x EXCEPT !.bounds = ToSetS(@)] : x \in ToSetS(s)}
 ImplSymptom(g, im) ==
-  IF ToSetS(im.gens) # ToSetS(Declared(g, im.k)) \/ Len(im.gens) # Len(Declared(g, im.k)) THEN
+  IF NormP(im.gens) # NormP(Declared(g, im.k)) \/ Len(im.gens) # Len(Declared(g, im.k)) THEN
        (IF \E x \in ToSetS(Declared(g, im.k)) : x.k = "lt" /\ ~\E y \in ToSetS(im.gens) : y.name = x.name THEN "lifetime_not_declared"
         ELSE IF \E y \in ToSetS(im.gens) : y.default # "-" THEN "default_kept_on_impl"
         ELSE IF \E y \in ToSetS(im.gens) : y.name = "'static" THEN "static_declared_as_parameter"
